@@ -4189,6 +4189,19 @@ BuildNode* BuildSystem::lookupNode(StringRef name) {
 bool llbuild::buildsystem::pathIsPrefixedByPath(std::string path,
                                                 std::string prefixPath) {
   std::string pathSeparators = llbuild::basic::sys::getPathSeparators();
+  // A prefix spelled with trailing separators names the same directory as the
+  // one without; compare against the latter, so that "/foo/" is a prefix of
+  // "/foo/bar" (and "/" of every absolute path) just like "/foo" is.
+  bool strippedSeparator = false;
+  while (!prefixPath.empty() &&
+         pathSeparators.find(prefixPath.back()) != std::string::npos) {
+    prefixPath.pop_back();
+    strippedSeparator = true;
+  }
+  // The root directory itself is a prefix of exactly the absolute paths.
+  if (prefixPath.empty() && strippedSeparator) {
+    return !path.empty() && pathSeparators.find(path[0]) != std::string::npos;
+  }
   // Note: GCC 4.8 doesn't support the mismatch(first1, last1, first2, last2)
   // overload, just mismatch(first1, last1, first2), so we have to handle the
   // case where prefixPath is longer than path.
